@@ -1,0 +1,10 @@
+//go:build verif
+
+package types
+
+// Contracts for the verification machinery in /verif (comment-only file; no code).
+
+// ICS-23 membership verification is outside the verified subset (hash chains, protobuf proof ops): it is an assumed
+// function of (proof, specs, root, path, value); the light-client contracts pin every one of those arguments.
+// verif:func (MerkleProof).VerifyMembership
+//@ trusted
